@@ -721,4 +721,194 @@ theorem lookup_tick (T : Nat) (a : Actor) (now0 : Nat) (hs : SockOk a now0) (hk 
         omega
     exact finish q4 extra g4 e4 hd4 (fun _ => hnowD)
 
+/-! ## One iteration of the loop -/
+
+theorem step_core (a : Actor) (env : Env) (dgram : Option (Message × Addr)) (msg : Option ApiMsg) :
+    (a.step env dgram msg).core = (((a.afterRecv env dgram).pickup env msg).maintenance env.now).core := rfl
+
+theorem late_adv (b : Actor) (env : Env) (msg : Option ApiMsg) :
+    Adv env.now b { ((b.pickup env msg).maintenance env.now) with sock := ((b.pickup env msg).maintenance env.now).sock.cleanup env.now } :=
+  (pickup_adv b env msg).trans ((maintenance_adv _ env.now).trans (cleanup_adv _ env.now))
+
+/-- **One iteration, one lookup**: as `lookup_tick`, for the whole iteration (the message pick-up
+    and the maintenance leave a registered lookup alone). -/
+theorem lookup_step (T : Nat) (a : Actor) (now0 : Nat) (hs : SockOk a now0) (hk : IterKeys a.core.iter)
+    (env : Env) (hnow : now0 ≤ env.now) (dgram : Option (Message × Addr)) (msg : Option ApiMsg)
+    (hb : a.sock.nextTid + ((a.step env dgram msg).out.length - a.out.length) < two32)
+    (hT0 : a.sock.timeout ≤ T) (hT1 : (a.recvPhase env.now dgram).1.sock.timeout ≤ T)
+    (t : Id) (q : IterQuery) (hq : alGet a.core.iter t = some q) (hc : C07.Closed q) (D : Nat) (hD : DueBy T a q D) :
+    Released a (a.afterRecv env dgram) t ∨
+    (env.now < D ∧ ∃ q' extra, alGet (a.step env dgram msg).core.iter t = some q' ∧
+        q'.inflight = q.inflight ++ extra ∧ DueBy T (a.step env dgram msg) q' (D + T * extra.length)) := by
+  have A05 := afterRecv_adv a env dgram
+  have A58 := late_adv (a.afterRecv env dgram) env msg
+  have hb' : a.sock.nextTid + (({ (((a.afterRecv env dgram).pickup env msg).maintenance env.now) with
+      sock := (((a.afterRecv env dgram).pickup env msg).maintenance env.now).sock.cleanup env.now } : Actor).out.length
+      - a.out.length) < two32 := hb
+  obtain ⟨F05, _, F58⟩ := Adv.split A05 A58 hb'
+  have hb05 : a.sock.nextTid + ((a.afterRecv env dgram).out.length - a.out.length) < two32 := by
+    obtain ⟨l2, e2⟩ := A58.out
+    have : ({ (((a.afterRecv env dgram).pickup env msg).maintenance env.now) with
+      sock := (((a.afterRecv env dgram).pickup env msg).maintenance env.now).sock.cleanup env.now } : Actor).out.length
+        = (a.afterRecv env dgram).out.length + l2.length := by rw [e2, List.length_append]
+    omega
+  rcases lookup_tick T a now0 hs hk env hnow dgram hb05 hT0 hT1 t q hq hc D hD with h | ⟨hlt, q', extra, g5, e5, d5⟩
+  · exact Or.inl h
+  · right
+    have hs5 := F05.sockOk (hs.mono hnow)
+    refine ⟨hlt, q', extra, ?_, e5, ?_⟩
+    · rw [step_core]
+      exact C07.maintenance_rel (keeps_create t q') _ env.now (C07.pickup_rel (keeps_create t q') _ env msg g5)
+    · exact dueBy_same F58 q' (hs5.iter (t, q') (mem_of_alGet _ _ _ g5)) _ d5
+
+/-! ## Every run -/
+
+/-- the hypotheses on a run: the clock does not run backwards, the request timeout in force when a
+    datagram is accepted and when finished work is looked for stays at or below `T`, and the
+    transaction id counter does not wrap -/
+def RunOk (T : Nat) : Actor → Nat → List StepIn → Prop
+  | _, _, [] => True
+  | a, now0, i :: is =>
+    now0 ≤ i.env.now ∧ a.sock.timeout ≤ T ∧ (a.recvPhase i.env.now i.dgram).1.sock.timeout ≤ T ∧
+    a.sock.nextTid + ((a.step i.env i.dgram i.msg).out.length - a.out.length) < two32 ∧
+    RunOk T (a.step i.env i.dgram i.msg) i.env.now is
+
+/-- the clock at the end of a run -/
+def endNow (now0 : Nat) (ins : List StepIn) : Nat := ins.foldl (fun _ i => i.env.now) now0
+
+/-- the invariants the time bound rests on: request bookkeeping, one lookup per target, every
+    registered lookup has queried its closest candidates -/
+structure Ready (a : Actor) (now : Nat) : Prop where
+  sock : SockOk a now
+  keys : IterKeys a.core.iter
+  closed : C07.AllClosed a.core.iter
+
+theorem step_ready (a : Actor) (now0 : Nat) (h : Ready a now0) (env : Env) (hnow : now0 ≤ env.now)
+    (dgram : Option (Message × Addr)) (msg : Option ApiMsg)
+    (hb : a.sock.nextTid + ((a.step env dgram msg).out.length - a.out.length) < two32) :
+    Ready (a.step env dgram msg) env.now :=
+  ⟨step_sockOk a now0 h.sock env hnow dgram msg hb, step_keys a h.keys env dgram msg, C07.step_closed a env dgram msg⟩
+
+theorem run_ready (T : Nat) (ins : List StepIn) : ∀ (a : Actor) (now0 : Nat), Ready a now0 → RunOk T a now0 ins →
+    Ready (runSteps a ins) (endNow now0 ins) := by
+  induction ins with
+  | nil => intro a now0 h _; exact h
+  | cons i is ih =>
+    intro a now0 h hr
+    obtain ⟨h1, _, _, h4, h5⟩ := hr
+    exact ih _ _ (step_ready a now0 h i.env h1 i.dgram i.msg h4) h5
+
+/-- **The time bound, every run.**  Let `q` be the lookup registered for `t` in a state `a`, with
+    all its requests due by `D` (so `D ≤ now + T`).  Along any run from `a` (any datagrams, any API
+    calls) either some tick of the run released the lookup — unregistered it, answered and un-parked
+    every caller parked on it — or the lookup is still registered at the end, has sent
+    `extra.length` further requests, and the clock has not reached `D + T · extra.length`:
+    a lookup never outlives its last deadline, and every request it sends buys it at most `T`. -/
+theorem lookup_run (T : Nat) (ins : List StepIn) : ∀ (a : Actor) (now0 : Nat), Ready a now0 → RunOk T a now0 ins →
+    ∀ (t : Id) (q : IterQuery), alGet a.core.iter t = some q → ∀ D, DueBy T a q D → now0 < D →
+    (∃ pre i post, ins = pre ++ i :: post ∧ Released (runSteps a pre) ((runSteps a pre).afterRecv i.env i.dgram) t) ∨
+    (∃ q' extra, alGet (runSteps a ins).core.iter t = some q' ∧ q'.inflight = q.inflight ++ extra ∧
+      DueBy T (runSteps a ins) q' (D + T * extra.length) ∧ endNow now0 ins < D + T * extra.length) := by
+  induction ins with
+  | nil =>
+    intro a now0 _ _ t q hq D hD hlt
+    exact Or.inr ⟨q, [], hq, by simp, by simpa [runSteps] using hD, by simpa [endNow] using hlt⟩
+  | cons i is ih =>
+    intro a now0 hr hok t q hq D hD _
+    obtain ⟨h1, h2, h3, h4, h5⟩ := hok
+    rcases lookup_step T a now0 hr.sock hr.keys i.env h1 i.dgram i.msg h4 h2 h3 t q hq (hr.closed t q hq) D hD with
+      h | ⟨hlt, q1, ex1, g1, e1, d1⟩
+    · exact Or.inl ⟨[], i, is, rfl, h⟩
+    · have hr1 := step_ready a now0 hr i.env h1 i.dgram i.msg h4
+      have hlt1 : i.env.now < D + T * ex1.length := Nat.lt_of_lt_of_le hlt (Nat.le_add_right _ _)
+      rcases ih _ _ hr1 h5 t q1 g1 _ d1 hlt1 with ⟨pre, j, post, e, hrel⟩ | ⟨q', ex2, g2, e2, d2, hl2⟩
+      · exact Or.inl ⟨i :: pre, j, post, by rw [e]; rfl, hrel⟩
+      · right
+        refine ⟨q', ex1 ++ ex2, g2, by rw [e2, e1, List.append_assoc], ?_, ?_⟩
+        · have : D + T * (ex1 ++ ex2).length = D + T * ex1.length + T * ex2.length := by
+            rw [List.length_append, Nat.mul_add, Nat.add_assoc]
+          rw [this]; exact d2
+        · have : D + T * (ex1 ++ ex2).length = D + T * ex1.length + T * ex2.length := by
+            rw [List.length_append, Nat.mul_add, Nat.add_assoc]
+          rw [this]; exact hl2
+
+/-! ### the starting point -/
+
+/-- in a state whose clock reads `now`, every lookup is due by `now + T` at the latest -/
+theorem dueBy_now (T : Nat) (a : Actor) (now : Nat) (h : SockOrd a.sock now) (q : IterQuery) : DueBy T a q (now + T) := by
+  intro r hr _
+  have := h.timed r hr
+  omega
+
+theorem fresh_sockOk (core : Core) (m : Bool) (n now : Nat) (hn : n < two32) (h1 : core.iter = []) (h2 : core.puts = []) :
+    SockOk { sockServerMode := m, core := core, sock := { nextTid := n } } now := by
+  refine ⟨⟨hn, ?_, List.Pairwise.nil, List.Pairwise.nil, ?_⟩, ?_, ?_⟩
+  · intro r h; cases h
+  · intro r h; cases h
+  · intro p h; rw [h1] at h; cases h
+  · intro p h; rw [h2] at h; cases h
+
+theorem boot_sockOk (a0 : Actor) (now : Nat) (h0 : SockOk a0 now)
+    (hb : a0.sock.nextTid + (({ (a0.maintenance now) with sock := (a0.maintenance now).sock.cleanup now } : Actor).out.length
+      - a0.out.length) < two32) :
+    SockOk { (a0.maintenance now) with sock := (a0.maintenance now).sock.cleanup now } now :=
+  (((maintenance_adv a0 now).trans (cleanup_adv (a0.maintenance now) now)).ok hb).sockOk h0
+
+/-- a freshly created node (as long as its first maintenance does not wrap the id counter) -/
+theorem create_ready (cfg : NodeConfig) (seed : UInt64) (now : Nat)
+    (hb : cfg.firstTid % two32 + (Actor.create cfg seed now).out.length < two32) :
+    Ready (Actor.create cfg seed now) now := by
+  obtain ⟨_, hclosed⟩ := C07.create_iter (fun _ _ _ => True) cfg seed now
+  refine ⟨?_, ?_, hclosed⟩
+  · unfold Actor.create at hb ⊢
+    split at hb <;>
+    · simp only at hb ⊢
+      apply boot_sockOk
+      · exact fresh_sockOk _ _ _ _ (Nat.mod_lt _ (by unfold two32; omega)) rfl rfl
+      · simpa using hb
+  · unfold Actor.create
+    split <;>
+    · simp only
+      exact C07.maintenance_rel keepsKeys_late.toCreateRel _ now (by simp [IterKeys])
+
+/-- **From creation.**  For every node, every run from its creation during which the request timeout
+    stays at or below `T`, the clock does not run backwards and the id counter does not wrap: a
+    lookup registered at the end of the run is either released by some later tick, or … — combine
+    with `lookup_run`, starting from `Ready (runSteps (Actor.create …) ins)`. -/
+theorem reachable_ready (T : Nat) (cfg : NodeConfig) (seed : UInt64) (t0 : Nat)
+    (hb : cfg.firstTid % two32 + (Actor.create cfg seed t0).out.length < two32)
+    (ins : List StepIn) (hok : RunOk T (Actor.create cfg seed t0) t0 ins) :
+    Ready (runSteps (Actor.create cfg seed t0) ins) (endNow t0 ins) :=
+  run_ready T ins _ _ (create_ready cfg seed t0 hb) hok
+
+/-- **The closed form.**  A lookup registered in a ready state whose clock reads `now0` is released
+    by a tick of any run that follows, unless at the end of the run the clock is still below
+    `now0 + T · (1 + requests the lookup has sent since)`. -/
+theorem lookup_bound (T : Nat) (a : Actor) (now0 : Nat) (hr : Ready a now0) (ins : List StepIn) (hok : RunOk T a now0 ins)
+    (hT : 0 < T) (t : Id) (q : IterQuery) (hq : alGet a.core.iter t = some q) :
+    (∃ pre i post, ins = pre ++ i :: post ∧ Released (runSteps a pre) ((runSteps a pre).afterRecv i.env i.dgram) t) ∨
+    (∃ q' extra, alGet (runSteps a ins).core.iter t = some q' ∧ q'.inflight = q.inflight ++ extra ∧
+      endNow now0 ins < now0 + T * (1 + extra.length)) := by
+  rcases lookup_run T ins a now0 hr hok t q hq (now0 + T) (dueBy_now T a now0 hr.sock.ord q) (by omega) with h | ⟨q', ex, g, e, _, hl⟩
+  · exact Or.inl h
+  · refine Or.inr ⟨q', ex, g, e, ?_⟩
+    have : now0 + T * (1 + ex.length) = now0 + T + T * ex.length := by rw [Nat.mul_add, Nat.mul_one, Nat.add_assoc]
+    rw [this]; exact hl
+
+/-! ### the hypotheses are satisfiable (tests, labelled as tests) -/
+
+/-- a client with one bootstrap address: after creation it is `Ready` and the lookup of its own id
+    is registered — the state-level hypotheses of `lookup_run` / `lookup_bound` -/
+def demoCfg : NodeConfig := { serverMode := false, bootstrap := [{ ip := 0x0A000001, port := 6881 }], publicIp := none }
+example : Ready (Actor.create demoCfg 7 0) 0 := create_ready demoCfg 7 0 (by decide)
+example : (alGet (Actor.create demoCfg 7 0).core.iter (Actor.create demoCfg 7 0).id).isSome = true := by decide
+
+/-- a run satisfying `RunOk` (a bootstrap-less server idling for a millisecond; the kernel cannot
+    evaluate the datagram count of a step that touches the `f64` statistics, so the example keeps
+    clear of them) -/
+def demoCfg1 : NodeConfig := { serverMode := true, bootstrap := [], publicIp := none }
+example : RunOk 500000000 (Actor.create demoCfg1 7 0) 0
+    [{ env := { now := 1000000, wall := 0, verify := fun _ _ _ => true }, dgram := none, msg := none }] := by
+  refine ⟨by decide, by decide, by decide, by decide, trivial⟩
+
 end Mainline.Props.C06Time
